@@ -236,7 +236,7 @@ def jobs_C01(tier):
                 j += seq('C01', 'q', p, n, 'full')
                 j += seq('C01', 'qv', p, n, 'quick')
                 j += seq('C01', 'ql', p, n, 'quick')
-            j += seq('C01', 'qf', p, 4, 'full')
+            j += seq('C01', 'qf', p, 4, 'full' if p == 'd' else 'quick')       # the full grid at n = 4 is 5.6 x 10^8 runs per precision: double only
             j += seq('C01', 'q', p, 4, 'quick')
             j += seq('C01', 'q', p, 0, 'full', family='cat')
             j += seq('C01', 'qt', p, 3, 'quick')
@@ -260,7 +260,7 @@ def jobs_C05(tier):
                 j += seq('C05', 'qh', p, n, 'full', forced=1)
             j += seq('C05', 'qh', p, 4, 'quick', forced=1)
             j += seq('C05', 'qh', p, 0, 'full', family='cat')
-        j += seq('C05', 'qh', 'd', 4, 'full', forced=0)
+        j += seq('C05', 'qf', 'd', 4, 'full', forced=0)        # full grid at n = 4 without sanitizer (measured: does not finish in 25 min under ASan); ASan runs the quick grid above
         j += seq('C05', 'ql', 'd', 3, 'full', forced=1)
     j += sched_catalogue('C05', tier, drv=0, light=True)
     j += tune_jobs('C05', tier)
